@@ -139,10 +139,22 @@ def run(ctx):
         if (depth, fp, child, chain, keydata) != (k.depth, k.parent_fingerprint.hex(), k.child_index, k.chain.hex(), kd.hex()):
             viol('exported extended key does not carry the key\'s fields', op='xkey_dec ' + s, spec=spec)
             continue
-        for hints in (False, True):
+        for hints in (False, True, 'witness', 'network', 'network+witness'):
             try:
-                if hints:
+                if hints is True:
                     k2 = HDKey(s, network=net, witness_type=wt, multisig=ms)
+                elif hints == 'witness':
+                    try:
+                        k2 = HDKey(s, witness_type=wt)
+                    except Exception as e:
+                        if 'network' not in str(e).lower():
+                            raise
+                        ctx.count('ambiguous-network-needs-hint')
+                        continue
+                elif hints == 'network':
+                    k2 = HDKey(s, network=net)
+                elif hints == 'network+witness':
+                    k2 = HDKey(s, network=net, witness_type=wt)
                 else:
                     try:
                         k2 = HDKey(s)
@@ -163,9 +175,21 @@ def run(ctx):
             kf = get_key_format(s)
             if kf['is_private'] != priv:
                 problems.append('get_key_format.is_private')
-            if hints:
+            if hints is True:
                 if k2.network.name != net or k2.witness_type != wt or bool(k2.multisig) != ms:
                     problems.append('metadata-with-hints %s/%s/%s' % (k2.network.name, k2.witness_type, k2.multisig))
+            elif hints:
+                # partial hints: what the hint does not say must still come from the version bytes where they are unambiguous
+                if 'network' in hints and k2.network.name != net:
+                    problems.append('network %s despite hint %s' % (k2.network.name, net))
+                if 'witness' in hints and k2.witness_type != wt:
+                    problems.append('witness_type %s despite hint %s' % (k2.witness_type, wt))
+                if 'witness' not in hints and len(wts) == 1 and k2.witness_type != wt:
+                    problems.append('witness_type %s' % k2.witness_type)
+                if len(mss) == 1 and bool(k2.multisig) != ms:
+                    problems.append('multisig %s with hints %s (the version bytes say %s)' % (k2.multisig, hints, ms))
+                if len(mss) == 1 and len(wts) == 1 and k2.network.name == net and k2.wif(is_private=priv) != s:
+                    problems.append('re-export with the imported metadata differs')
             else:
                 if k2.network.name not in snets or (len(snets) == 1 and k2.network.name != net):
                     problems.append('network %s not in %s' % (k2.network.name, snets))
@@ -173,7 +197,7 @@ def run(ctx):
                     problems.append('witness_type %s' % k2.witness_type)
                 if len(mss) == 1 and bool(k2.multisig) != ms:
                     problems.append('multisig %s' % k2.multisig)
-            if k2.wif(is_private=priv, witness_type=wt, multisig=ms) != s and hints:
+            if hints is True and k2.wif(is_private=priv, witness_type=wt, multisig=ms) != s:
                 problems.append('re-export differs')
             if problems:
                 viol('extended key import differs: ' + ', '.join(problems), op='xkey_dec ' + s, hints=hints, spec=spec)
